@@ -380,9 +380,22 @@ func whenSigned(info *types.Info, rule ast.Expr, isIsSigned func(*types.Func) bo
 	}
 	cond := ast.Unparen(cl.Args[0])
 	neg := false
-	if u, ok := cond.(*ast.UnaryExpr); ok && u.Op == token.NOT {
-		neg = true
-		cond = ast.Unparen(u.X)
+	// through negations and locals that hold the flag (signed := IsSigned(ctx); draft := !IsSigned(ctx))
+	for i := 0; i < 4; i++ {
+		if u, ok := cond.(*ast.UnaryExpr); ok && u.Op == token.NOT {
+			neg = !neg
+			cond = ast.Unparen(u.X)
+			continue
+		}
+		if id, ok := cond.(*ast.Ident); ok {
+			if v, ok := info.Uses[id].(*types.Var); ok && !v.IsField() {
+				if d := singleLocalDef(info, v); d != nil {
+					cond = ast.Unparen(d)
+					continue
+				}
+			}
+		}
+		break
 	}
 	cc, ok := cond.(*ast.CallExpr)
 	if !ok || neg != negated {
@@ -401,4 +414,52 @@ func whenSigned(info *types.Info, rule ast.Expr, isIsSigned func(*types.Func) bo
 		})
 	}
 	return found
+}
+
+
+// singleLocalDef returns the defining expression of a local variable that is
+// assigned exactly once in its function (found through the enclosing package
+// syntax), else nil.
+func singleLocalDef(info *types.Info, v *types.Var) ast.Expr {
+	if subject == nil || v.Pkg() == nil {
+		return nil
+	}
+	pk := subject.ByPath[v.Pkg().Path()]
+	if pk == nil {
+		return nil
+	}
+	var def ast.Expr
+	n := 0
+	for _, f := range pk.Syntax {
+		if !(f.Pos() <= v.Pos() && v.Pos() <= f.End()) {
+			continue
+		}
+		ast.Inspect(f, func(m ast.Node) bool {
+			switch x := m.(type) {
+			case *ast.AssignStmt:
+				for i, l := range x.Lhs {
+					if id, ok := l.(*ast.Ident); ok && (info.Defs[id] == types.Object(v) || info.Uses[id] == types.Object(v)) {
+						n++
+						if len(x.Lhs) == len(x.Rhs) {
+							def = x.Rhs[i]
+						}
+					}
+				}
+			case *ast.ValueSpec:
+				for i, nm := range x.Names {
+					if info.Defs[nm] == types.Object(v) {
+						n++
+						if len(x.Values) == len(x.Names) {
+							def = x.Values[i]
+						}
+					}
+				}
+			}
+			return true
+		})
+	}
+	if n != 1 {
+		return nil
+	}
+	return def
 }
